@@ -18,10 +18,13 @@ time_t __real_time(time_t*); int __real_clock_gettime(clockid_t, struct timespec
 ssize_t __real_getrandom(void*, size_t, unsigned); int __real_getentropy(void*, size_t); int __real_rand(void); long __real_random(void);
 int __real_open(const char*, int, ...); FILE* __real_fopen(const char*, const char*); clock_t __real_clock(void);
 
-void* __wrap_malloc(size_t n) { HIT(PV_WRAP_MALLOC); return __real_malloc(n); }
+/* the libc allocator can run out of memory too: when armed, the k-th malloc/calloc/realloc made inside a library call returns NULL */
+long pv_wrap_malloc_fail_countdown; uint64_t pv_wrap_malloc_refused;
+static int refuse(void) { if (pv_in_lib && pv_wrap_malloc_fail_countdown > 0 && --pv_wrap_malloc_fail_countdown == 0) { ++pv_wrap_malloc_refused; return 1; } return 0; }
+void* __wrap_malloc(size_t n) { HIT(PV_WRAP_MALLOC); if (refuse()) return NULL; return __real_malloc(n); }
 void __wrap_free(void* p) { HIT(PV_WRAP_FREE); __real_free(p); }
-void* __wrap_calloc(size_t a, size_t b) { HIT(PV_WRAP_CALLOC); return __real_calloc(a, b); }
-void* __wrap_realloc(void* p, size_t n) { HIT(PV_WRAP_REALLOC); return __real_realloc(p, n); }
+void* __wrap_calloc(size_t a, size_t b) { HIT(PV_WRAP_CALLOC); if (refuse()) return NULL; return __real_calloc(a, b); }
+void* __wrap_realloc(void* p, size_t n) { HIT(PV_WRAP_REALLOC); if (refuse()) return NULL; return __real_realloc(p, n); }
 time_t __wrap_time(time_t* t) {
     HIT(PV_WRAP_TIME);
     if (pv_in_lib && pv_wrap_time_scripted) { if (t) *t = pv_wrap_time_value; return pv_wrap_time_value; }
